@@ -21,7 +21,7 @@ func TestProbeC05PublishTimeNotInFuture(t *testing.T) {
 		t.Fatal(err)
 	}
 	re := regexp.MustCompile(`publishTime="([^"]+)"`)
-	asset := "WAVE/vectors/cfhd_sets/12.5_25_50/t3/2022-10-17"
+	asset := "WAVE/vectors/cfhd_sets/14.985_29.97_59.94/t1/2022-10-17"
 	bad := 0
 	for nowMS := 400000; nowMS < 520000; nowMS += 100 {
 		w := httptest.NewRecorder()
